@@ -9,9 +9,10 @@ git diff --quiet || { echo "/repo is dirty"; exit 2; }
 echo "== demo on unchanged tree"; PYTHONPATH=/repo/src /venv/bin/python $D/demo.py >/tmp/demo_$ID.out 2>&1; echo "rc=$? $(tail -1 /tmp/demo_$ID.out | cut -c1-200)"
 git apply $D/patch.diff || { echo "patch does not apply"; exit 2; }
 echo "== demo with change"; PYTHONPATH=/repo/src /venv/bin/python $D/demo.py >/tmp/demo_$ID.out 2>&1; echo "rc=$? $(tail -1 /tmp/demo_$ID.out | cut -c1-200)"
+rm -rf /verif/build/evidence.keep; cp -r /verif/evidence /verif/build/evidence.keep   # evidence of a changed tree is not kept
 for P in "$@"; do
   echo "== check $P with change"
   (cd /verif && ./check $P --tier quick 2>&1 | grep -v '^KNOWN-FINDING' | tail -3 | cut -c1-400)
 done
-git checkout -- . ; git status --short | head -3
+cp /verif/build/evidence.keep/*.json /verif/evidence/; git checkout -- . ; git status --short | head -3
 echo "== restored"
